@@ -1,7 +1,7 @@
 //@ assume: libsecp256k1 (FFI) is abstract: Secp256k1::blind_sum(pos, neg) fails with InvalidSecretKey exactly when the keys cancel (sp_cancels -- the only way a reduced scalar sum of valid keys is not a valid key; grin_secp256k1zkp pedersen.rs blind_sum ends in SecretKey::from_slice) and otherwise returns sp_sum(pos, neg); BlindingFactor::secret_key returns sp_bf_key(b); zero / from_secret_key are uninterpreted; BlindingFactor equality is structural
 //@ assume: T5: one Error type for secp::Error / committed::Error / transaction::Error (so `e.into()` => `e`); `static_secp_instance()` + `.lock()` => secp_instance(); `x.into_iter().filter(f).filter_map(g).collect::<Vec<_>>()` => abstract BfIter / KeyIter stand-ins whose contracts say exactly: filter keeps the elements with f in order, filter_map the `Some` results of g in order; ALL closures are the REAL closure texts, verified as lifted functions (T7); `vec![x]` => vec1(x)
-//@ assume: decided here (C12, 'whose offset is the sum of their offsets' / 'de-aggregating a known subset returns the remainder', for zero and non-zero offsets): committed::sum_kernel_offsets(pos, neg) NEVER fails: it returns zero when no positive operand contributes a key or when the contributing keys cancel, and otherwise from_secret_key(secp's sum of exactly the non-zero operands' keys, in order); the offset block of transaction::deaggregate (lifted) likewise NEVER fails and returns zero when nothing contributes or the keys cancel (the remainder's offset is zero), otherwise from_secret_key(sum(mk offset's key) - (known offsets' keys))
-//@ assumed_items: 11
+//@ assume: decided here (C12, 'whose offset is the sum of their offsets' / 'de-aggregating a known subset returns the remainder', for zero and non-zero offsets): committed::sum_kernel_offsets(pos, neg) NEVER fails: it returns zero when no positive operand contributes a key or when the contributing keys cancel, and otherwise from_secret_key(secp's sum of exactly the non-zero operands' keys, in order); the offset block of transaction::deaggregate (lifted; its free variables mk_tx, tx = the aggregate of the known transactions, kernel_offsets = [tx.offset] are parameters) likewise NEVER fails and returns zero when nothing contributes or the keys cancel (the remainder's offset is zero), otherwise from_secret_key(sum(mk offset's key) - (known offsets' keys))
+//@ assumed_items: 12
 //@ fns: committed::sum_kernel_offsets, committed::to_secrets, 2 closures in to_secrets, offset block of transaction::deaggregate, 4 closures in that block
 #[verifier::external_body]
 pub struct Secp256k1 { _p: u8 }
@@ -59,6 +59,11 @@ impl BlindingFactor {
     pub fn from_secret_key(k: SecretKey) -> (r: BlindingFactor) ensures r == sp_from_sk(k) { unimplemented!() }
     #[verifier::external_body]
     pub fn secret_key(&self, secp: &Secp256k1) -> (r: Result<SecretKey, Error>) ensures r == sp_bf_key(*self) { unimplemented!() }
+    /// BlindingFactor::split, contract proved in C20/bf_split: self - blind_1 through secp, failing when a conversion or the sum fails
+    #[verifier::external_body]
+    pub fn split(&self, blind_1: &BlindingFactor, secp: &Secp256k1) -> (r: Result<BlindingFactor, Error>)
+        ensures r == (match sp_bf_key(*self) { Err(e) => Err::<BlindingFactor, Error>(e), Ok(k) => match sp_bf_key(*blind_1) { Err(e) => Err::<BlindingFactor, Error>(e),
+            Ok(k1) => if sp_cancels(seq![k], seq![k1]) { Err::<BlindingFactor, Error>(Error::InvalidSecretKey) } else { Ok::<BlindingFactor, Error>(sp_from_sk(sp_sum(seq![k], seq![k1]))) } } }) { unimplemented!() }
 }
 //@ extract core/src/core/committed.rs :: fn to_secrets
 //@   eclosure 1 replaced_by `NonZero {}`
@@ -85,7 +90,7 @@ impl BlindingFactor {
 //@+    r == Ok::<BlindingFactor, Error>(if keys_of(positive@).len() == 0 { sp_zero() } else { sum_or_zero(keys_of(positive@), keys_of(negative@)) }),
 //@ end
 //@ extract core/src/core/transaction.rs :: fn deaggregate
-//@   block `let total_kernel_offset = ` lifted_ok_as `fn deagg_offset(mk_tx: &Transaction, kernel_offsets: Vec<BlindingFactor>) -> Result<BlindingFactor, Error>`
+//@   block `let total_kernel_offset = ` lifted_ok_as `fn deagg_offset(mk_tx: &Transaction, tx: &Transaction, kernel_offsets: Vec<BlindingFactor>) -> Result<BlindingFactor, Error>`
 //@   rewrite `let secp = static_secp_instance();\n\t\tlet secp = secp.lock();` => `let secp = secp_instance();`
 //@   rewrite `|x| *x != BlindingFactor::zero()` => `NonZero {}` x2
 //@   rewrite `|x| x.secret_key(&secp).ok()` => `KeyOf { secp: &secp }` x2
@@ -95,26 +100,28 @@ impl BlindingFactor {
 //@   rewrite `let positive_key = ` => `let positive_key: Vec<SecretKey> = `
 //@   rewrite `let negative_keys = ` => `let negative_keys: Vec<SecretKey> = `
 //@   rewrite `e.into()` => `e` x?
+//@   requires:
+//@+    kernel_offsets@ == seq![tx.offset],
 //@   ensures:
-//@+    r == Ok::<BlindingFactor, Error>({ let p = keys_of(seq![mk_tx.offset]); let n = keys_of(kernel_offsets@);
+//@+    r == Ok::<BlindingFactor, Error>({ let p = keys_of(seq![mk_tx.offset]); let n = keys_of(seq![tx.offset]);
 //@+            if p.len() == 0 && n.len() == 0 { sp_zero() } else { sum_or_zero(p, n) } }),
 //@ end
-//@ extract core/src/core/transaction.rs :: fn deaggregate
+//@ extract? core/src/core/transaction.rs :: fn deaggregate
 //@   eclosure 1 lifted_as `fn dg_keep1(x: &BlindingFactor) -> bool`
 //@   ensures:
 //@+    r == sp_keep(*x),
 //@ end
-//@ extract core/src/core/transaction.rs :: fn deaggregate
+//@ extract? core/src/core/transaction.rs :: fn deaggregate
 //@   eclosure 2 lifted_as `fn dg_key1(x: BlindingFactor, secp: &Secp256k1) -> Option<SecretKey>`
 //@   ensures:
 //@+    r == sp_key_opt(x),
 //@ end
-//@ extract core/src/core/transaction.rs :: fn deaggregate
+//@ extract? core/src/core/transaction.rs :: fn deaggregate
 //@   eclosure 3 lifted_as `fn dg_keep2(x: &BlindingFactor) -> bool`
 //@   ensures:
 //@+    r == sp_keep(*x),
 //@ end
-//@ extract core/src/core/transaction.rs :: fn deaggregate
+//@ extract? core/src/core/transaction.rs :: fn deaggregate
 //@   eclosure 4 lifted_as `fn dg_key2(x: BlindingFactor, secp: &Secp256k1) -> Option<SecretKey>`
 //@   ensures:
 //@+    r == sp_key_opt(x),
